@@ -157,6 +157,7 @@ def run(fx, R, tier):
         R.undecided('T1', 'checkups', 'only %d check-up classes found' % len(kinds))
     for (cq, kind) in kinds:
         check_checkup(fx, R, cq, kind)
+    check_configuration(fx, R)
     check_timeout(fx, R)
     check_printer(fx, R)
     check_worse(fx, R)
@@ -454,6 +455,81 @@ def boundary_tag(asg, kind):
     if asg['v'] in (asg['T'] - asg['E'], asg['T'] + asg['E']):
         return 'on-threshold' + ('(E=0)' if asg['E'] == 0 else '')
     return 'interior'
+
+
+def check_configuration(fx, R):
+    """T6: the thresholds the decision trees compare with are the ones the caller configured.  Every Checkup<T> constructor is read: the stored tolerance must be its epsilon argument and the stored reference
+    value its value argument, by value (witnesses 0 and 1/2 for the tolerance: the quantifier has every non-negative epsilon, 0 included).
+    T2 (type of the printed value): setValue_ of Checkup<T> receives and prints a T - a parameter of another arithmetic type converts the value before it is printed (an int printed as a double loses its digits
+    from 1e6 on: '1.23457e+06')."""
+    ctors = [f for f in fx.functions.values() if f.get('ctor') and not f.get('copyctor') and (f.get('cls') or '').startswith(Q + 'Checkup<') and f.get('body') is not None and len(f.get('params') or []) >= 3]
+    if not ctors:
+        R.undecided('T6', 'Checkup<T>::Checkup', 'no constructor with a body found')
+    for f in sorted(ctors, key=lambda f: f['q']):
+        cname = short_fn(f['cls'])
+        R.used(f)
+        try:
+            sts = sym.Reader(fx, call_hook=hook).run(f)
+        except sym.Unsupported as u:
+            R.undecided('T6', cname + '::Checkup', 'constructor not readable: %s' % u)
+            continue
+        pn = [p_['name'] for p_ in f['params']]
+        for (field, par, what) in (('epsilon_', pn[2], 'tolerance'), ('value_to_compare_with_', pn[1], 'reference value')):
+            inst = '%s::Checkup:%s' % (cname, field)
+            verdict = None
+            for st in sts:
+                v_ = st.fields.get(('this', field))
+                a_ = sp.Symbol('arg:' + par, real=True)
+                if v_ is None:
+                    verdict = verdict or ('violated', 'the constructor leaves `%s` unset' % field)
+                    continue
+                if isinstance(v_, sp.Symbol) and v_.name == 'arg:' + par:
+                    continue
+                if not isinstance(v_, sp.Basic):
+                    verdict = verdict or ('undecided', 'stored %s is %s' % (what, str(v_)[:80]))
+                    continue
+                free = {y_ for y_ in v_.free_symbols}
+                arg_ = [y_ for y_ in free if y_.name == 'arg:' + par]
+                if free - set(arg_):
+                    verdict = verdict or ('undecided', 'stored %s depends on %s' % (what, sorted(str(y_) for y_ in free - set(arg_))[:3]))
+                    continue
+                for w_ in (sp.Integer(0), sp.Rational(1, 2), sp.Integer(3)):
+                    try:
+                        got = sp.nsimplify(v_.subs({y_: w_ for y_ in arg_})) if not arg_ else v_.subs({y_: w_ for y_ in arg_})
+                        diff = sp.N(got - w_, 30)
+                    except Exception:
+                        diff = None
+                    if diff is None or not diff.is_number:
+                        verdict = verdict or ('undecided', 'stored %s %s not evaluable' % (what, str(v_)[:80]))
+                        break
+                    if diff != 0:
+                        verdict = ('violated', 'constructed with %s = %s the check-up stores %s = %s (`%s`): the decision tree then compares with another threshold than the one configured - %s' % (
+                            par, w_, field, sp.N(got, 6), str(v_)[:80],
+                            'with epsilon = 0, which the quantifier names, an equal-to check-up is OK for values that differ from the target, and the strict comparisons of greater-than / lower-than accept a value '
+                            'exactly on (or one ulp beyond) the threshold' if field == 'epsilon_' else 'every verdict is that of another threshold'))
+                        break
+            if verdict is None:
+                R.holds('T6', inst, 'stored %s = the constructor argument `%s`' % (what, par), fx.rel(f['loc']), 'E-STATE')
+            elif verdict[0] == 'violated':
+                R.violated('T6', 'Checkup::Checkup:%s' % field, verdict[1] + ' [%s]' % cname, fx.rel(f['loc']), 'E-STATE')
+            else:
+                R.undecided('T6', inst, verdict[1])
+    sv = [f for f in fx.functions.values() if (f.get('cls') or '').startswith(Q + 'Checkup<') and f['name'] == 'setValue_' and f.get('params')]
+    if not sv:
+        R.undecided('T2', 'Checkup<T>::setValue_', 'no instantiation found')
+    for f in sorted(sv, key=lambda f: f['q']):
+        T = f['cls'][len(Q + 'Checkup<'):-1].strip()
+        pt = ((f['params'][0].get('t') or {}).get('s') or '').replace('const ', '').replace('&', '').strip()
+        R.used(f)
+        inst = 'Checkup<%s>::setValue_:printed-type' % T
+        if pt == T:
+            R.holds('T2', inst, 'the value is received and printed as %s' % T, fx.rel(f['loc']), 'E-STATE')
+        elif pt in ('double', 'float', 'long double', 'int', 'long', 'unsigned int', 'unsigned long', 'long long', 'short', 'char', 'bool', 'unsigned long long'):
+            R.violated('T2', 'Checkup::setValue_:printed-type', 'setValue_ of Checkup<%s> takes its value as `%s`: the evaluated %s is converted before it is printed, so the info entry is the text of another number type - '
+                       '%s' % (T, (f['params'][0].get('t') or {}).get('s'), T, 'an integer of seven or more digits is printed in the default floating format with six significant digits (1234567 -> "1.23457e+06"): '
+                               'the info entry is not the printed value' if pt in ('double', 'float', 'long double') else 'the fractional part / range of the value is lost'), fx.rel(f['loc']), 'E-STATE')
+        else:
+            R.undecided('T2', inst, 'parameter type %s of setValue_ for T = %s' % (pt, T))
 
 
 def check_timeout(fx, R):
